@@ -1,5 +1,5 @@
 (** * C20 -- bit-mask bookkeeping of virtual and classical registers *)
-From QV Require Import Bits CVReg C20T.
+From QV Require Import Bits CVReg C20T Reg ScalarR C05T C20T2.
 
 Theorem C20_bits_iter : C20_bits_iter_stmt.
 Proof. exact C20_bits_iter_proof. Qed.
@@ -16,3 +16,7 @@ Print Assumptions C20_creg.
 Theorem C20_legacy : C20_legacy_stmt.
 Proof. exact C20_legacy_proof. Qed.
 Print Assumptions C20_legacy.
+
+Theorem C20_views_history : C20_views_history_stmt.
+Proof. exact C20_views_history_proof. Qed.
+Print Assumptions C20_views_history.
